@@ -2,8 +2,9 @@ import FalconModel.ReqDates
 import FalconModel.CookieOutProofs
 /-! C09 proofs for `ReqDates.lean`: HTTP-date request headers.
 
-    * `date_format_parse`: `http_date_to_dt(dt_to_http(dt)) == dt` for every `datetime` from the year 1000 on (both `obs_date` settings);
-      `date_below_1000_not_read_back`: below 1000 glibc's unpadded `%Y` makes the text unreadable for `strptime`'s `%Y`;
+    * `date_format_parse`: `http_date_to_dt(dt_to_http(dt)) == dt` for every `datetime` (years 1..9999, both `obs_date` settings, any process time zone);
+      `date_below_1000_unpadded_not_read_back`: regression witness for F37 (the unpadded `%Y` rendering used before 8cb1d9b);
+      `date_tz_independent`: without `obs_date` the process time zone plays no role;
     * `date_weekday_not_checked` (+ `_imf`, `date_any_weekday`): the day name is parsed but never compared with the date;
     * `rfc850_parse`, `asctime_parse`: the obsolete forms are read with `obs_date=True`; `obs_forms_rejected_by_properties`:
       the request properties answer 400 for them (known finding F30);
@@ -238,69 +239,150 @@ theorem mkDatetime_valid (f : Fields) (c : Civil) (h : mkDatetime f = some c) : 
   · rename_i hv; simp only [Option.some.injEq] at h; rw [← h]; exact hv
   · exact absurd h (by simp)
 
+/-! ### `%Z`: the zone alternatives of the process -/
+theorem ciPrefix_length : ∀ (n s r : Str), ciPrefix n s = some r → s.length = n.length + r.length
+  | [], s, r, h => by simp only [ciPrefix, Option.some.injEq] at h; simp [h]
+  | _ :: _, [], r, h => by simp [ciPrefix] at h
+  | w :: ws, c :: s, r, h => by
+    simp only [ciPrefix] at h
+    split at h
+    · have := ciPrefix_length ws s r h; simp only [List.length_cons, this]; omega
+    · exact absurd h (by simp)
+
+theorem mem_insertLen (x n : Str) : ∀ (ms : List Str), x ∈ insertLen n ms ↔ x = n ∨ x ∈ ms
+  | [] => by simp [insertLen]
+  | m :: ms => by
+    simp only [insertLen]
+    split
+    · simp
+    · simp only [List.mem_cons, mem_insertLen x n ms]
+      constructor
+      · rintro (h | h | h)
+        · exact Or.inr (Or.inl h)
+        · exact Or.inl h
+        · exact Or.inr (Or.inr h)
+      · rintro (h | h | h)
+        · exact Or.inr (Or.inl h)
+        · exact Or.inl h
+        · exact Or.inr (Or.inr h)
+
+theorem mem_sortLen (x : Str) : ∀ (L : List Str), x ∈ sortLen L ↔ x ∈ L
+  | [] => by simp [sortLen]
+  | n :: ns => by simp only [sortLen, mem_insertLen, mem_sortLen x ns, List.mem_cons]
+
+/-- reading `GMT` at the end of the string with an alternation that offers `gmt` and no name shorter than three letters -/
+theorem firstName_gmt : ∀ (L : List Str) (k : Nat), (∀ n ∈ L, 3 ≤ n.length) → ['g', 'm', 't'] ∈ L → ∃ i, firstName L k ['G', 'M', 'T'] = some (i, [])
+  | [], _, _, hg => by simp at hg
+  | n :: ns, k, h3, hg => by
+    simp only [firstName]
+    cases hc : ciPrefix n ['G', 'M', 'T'] with
+    | some r =>
+      have hl := ciPrefix_length n _ r hc
+      have hn := h3 n (by simp)
+      simp only [List.length_cons, List.length_nil] at hl
+      have : r = [] := List.eq_nil_of_length_eq_zero (by omega)
+      exact ⟨k, by rw [this]⟩
+    | none =>
+      have hne : n ≠ ['g', 'm', 't'] := by intro e; rw [e] at hc; revert hc; decide
+      have hg' : ['g', 'm', 't'] ∈ ns := by
+        rcases List.mem_cons.mp hg with h | h
+        · exact absurd h.symm hne
+        · exact h
+      exact firstName_gmt ns (k + 1) (fun x hx => h3 x (by simp [hx])) hg'
+
+/-- time zone abbreviations have three or more letters (POSIX `TZ`) -/
+def TzNamesOk (tzn : List Str) : Prop := ∀ n ∈ tzn, 3 ≤ n.length
+
+theorem scan_zone_gmt (tzn : List Str) (h : TzNamesOk tzn) (f : Fields) : scan [.zone (zoneAlts tzn)] ['G', 'M', 'T'] f = some f := by
+  have h3 : ∀ n ∈ zoneAlts tzn, 3 ≤ n.length := by
+    intro n hn
+    simp only [zoneAlts, mem_sortLen, List.mem_append, List.mem_cons, List.not_mem_nil, or_false] at hn
+    rcases hn with (h1 | h1) | h1
+    · rw [h1]; decide
+    · rw [h1]; decide
+    · exact h n h1
+  have hg : ['g', 'm', 't'] ∈ zoneAlts tzn := by simp [zoneAlts, mem_sortLen]
+  obtain ⟨i, hi⟩ := firstName_gmt _ 0 h3 hg
+  simp only [scan, hi]; rfl
+
+theorem tzNamesOk_nil : TzNamesOk [] := by intro n hn; simp at hn
+
+example : TzNamesOk ["cet".toList] ∧ TzNamesOk ["est".toList, "edt".toList] := by
+  refine ⟨?_, ?_⟩ <;> intro n hn <;> simp at hn
+  · rw [hn]; decide
+  · rcases hn with h | h <;> (rw [h]; decide)
+
 /-! ### IMF-fixdate -/
-/-- everything after the day name of an IMF-fixdate -/
-def imfBody (c : Civil) : Str :=
-  ',' :: ' ' :: (pad2 c.day ++ ' ' :: (monName c.month ++ ' ' :: (natDec c.year ++ ' ' :: (pad2 c.hour ++ ':' :: (pad2 c.minute ++ ':' ::
+/-- everything after the day name of an IMF-fixdate with the year written as `year` -/
+def imfBodyY (c : Civil) (year : Str) : Str :=
+  ',' :: ' ' :: (pad2 c.day ++ ' ' :: (monName c.month ++ ' ' :: (year ++ ' ' :: (pad2 c.hour ++ ':' :: (pad2 c.minute ++ ':' ::
     (pad2 c.second ++ [' ', 'G', 'M', 'T']))))))
 
+/-- … as `dt_to_http` writes it -/
+def imfBody (c : Civil) : Str := imfBodyY c (pad4z c.year)
+
 theorem dtToHttp_shape (c : Civil) : dtToHttp c = wdName (civilWeekday c) ++ imfBody c := by
-  simp [dtToHttp, Cw.imfDate, Cw.dateTail, civilWeekday, imfBody, List.append_assoc]
+  simp [dtToHttp, Cw.dateTail, civilWeekday, imfBody, imfBodyY, List.append_assoc]
+
+theorem dtToHttpUnpadded_shape (c : Civil) : dtToHttpUnpadded c = wdName (civilWeekday c) ++ imfBodyY c (natDec c.year) := by
+  simp [dtToHttpUnpadded, Cw.imfDate, Cw.dateTail, civilWeekday, imfBodyY, List.append_assoc]
+
+/-- from the year 1000 on the fix changes nothing -/
+theorem dtToHttp_eq_unpadded (c : Civil) (h1 : 1000 ≤ c.year) (h2 : c.year ≤ 9999) : dtToHttp c = dtToHttpUnpadded c := by
+  rw [dtToHttp_shape, dtToHttpUnpadded_shape, imfBody, pad4z_eq_natDec _ h1 h2]
 
 /-- the part of the IMF pattern up to the time zone, on a rendered body -/
-theorem scan_imf_prefix (is : List Item) (w : Nat) (c : Civil) (hv : validCivil c = true) (hy : 1000 ≤ c.year) (tail : Str) (f : Fields) :
+theorem scan_imf_prefix (is : List Item) (w : Nat) (c : Civil) (hv : validCivil c = true) (tail : Str) (f : Fields) :
     scan ([.wdAbbr, .lit ',', .ws, .day, .ws, .mon, .ws, .year4, .ws] ++ hms ++ .ws :: is)
-      (wdName w ++ ',' :: ' ' :: (pad2 c.day ++ ' ' :: (monName c.month ++ ' ' :: (natDec c.year ++ ' ' :: (pad2 c.hour ++ ':' :: (pad2 c.minute ++ ':' ::
+      (wdName w ++ ',' :: ' ' :: (pad2 c.day ++ ' ' :: (monName c.month ++ ' ' :: (pad4z c.year ++ ' ' :: (pad2 c.hour ++ ':' :: (pad2 c.minute ++ ':' ::
         (pad2 c.second ++ ' ' :: 'G' :: tail))))))) f =
     scan is ('G' :: tail) ⟨c.year, c.month, c.day, c.hour, c.minute, c.second⟩ := by
   obtain ⟨y1, y2, m1, m2, d1, d2, t1, t2, t3⟩ := (validCivil_iff c).mp hv
   have d3 : c.day ≤ 31 := Nat.le_trans d2 (daysInMonth_le _ _)
   have hsp : isDig ' ' = false := by decide
   simp only [List.cons_append, List.nil_append]
-  rw [scan_wdAbbr, scan_lit, scan_ws_pad2, scan_day _ _ d1 d3 _ _ (headDig_cons _ _ hsp), scan_ws_mon _ _ m1 m2, scan_ws_natDec,
-    scan_year4 _ _ hy y2 _ _ (headDig_cons _ _ hsp), scan_ws_pad2]
+  rw [scan_wdAbbr, scan_lit, scan_ws_pad2, scan_day _ _ d1 d3 _ _ (headDig_cons _ _ hsp), scan_ws_mon _ _ m1 m2, scan_ws_pad4z,
+    scan_year4_pad _ _ y2 _ _ (headDig_cons _ _ hsp), scan_ws_pad2]
   have := scan_hms (.ws :: is) c ⟨t1, t2, t3⟩ (' ' :: 'G' :: tail) { (f : Fields) with month := c.month, day := c.day, year := c.year } (headDig_cons _ _ hsp)
   simp only [List.cons_append, List.nil_append, hms] at this
   simp only [hms, List.cons_append, List.nil_append]
   rw [this, scan_ws _ 'G' _ _ (by decide)]
 
-theorem strptime_imf (w : Nat) (c : Civil) (hv : validCivil c = true) (hy : 1000 ≤ c.year) : strptime fmtImf (wdName w ++ imfBody c) = some c := by
-  unfold strptime fmtImf imfBody
-  rw [scan_imf_prefix [.gmt] w c hv hy ['M', 'T'] {}]
+theorem strptime_imf (w : Nat) (c : Civil) (hv : validCivil c = true) : strptime fmtImf (wdName w ++ imfBody c) = some c := by
+  unfold strptime fmtImf imfBody imfBodyY
+  rw [scan_imf_prefix [.gmt] w c hv ['M', 'T'] {}]
   exact mkDatetime_of_valid c hv
 
-theorem strptime_imfZ (w : Nat) (c : Civil) (hv : validCivil c = true) (hy : 1000 ≤ c.year) : strptime fmtImfZ (wdName w ++ imfBody c) = some c := by
-  unfold strptime fmtImfZ imfBody
-  rw [scan_imf_prefix [.zone] w c hv hy ['M', 'T'] {}]
+theorem strptime_imfZ (tzn : List Str) (htz : TzNamesOk tzn) (w : Nat) (c : Civil) (hv : validCivil c = true) :
+    strptime (fmtImfZ (zoneAlts tzn)) (wdName w ++ imfBody c) = some c := by
+  unfold strptime fmtImfZ imfBody imfBodyY
+  rw [scan_imf_prefix [.zone (zoneAlts tzn)] w c hv ['M', 'T'] {}, scan_zone_gmt tzn htz]
   exact mkDatetime_of_valid c hv
 
-/-- **`date_format_parse`**: for every date-time a `datetime` object can hold from the year 1000 on,
-    `http_date_to_dt(dt_to_http(dt)) == dt` (with and without `obs_date`) -/
-theorem date_format_parse (obs : Bool) (c : Civil) (hv : validCivil c = true) (hy : 1000 ≤ c.year) : httpDateToDt obs (dtToHttp c) = some c := by
+/-- **`date_format_parse`**: for every date-time a `datetime` object can hold (years 1..9999), in a process with any time
+    zone, `http_date_to_dt(dt_to_http(dt)) == dt` (with and without `obs_date`) -/
+theorem date_format_parse (tzn : List Str) (htz : TzNamesOk tzn) (obs : Bool) (c : Civil) (hv : validCivil c = true) :
+    httpDateToDt tzn obs (dtToHttp c) = some c := by
   rw [dtToHttp_shape]
   cases obs with
-  | false => simp only [httpDateToDt, Bool.not_false, if_true, strptime_imf _ c hv hy]
-  | true => simp only [httpDateToDt, Bool.not_true, Bool.false_eq_true, if_false, strptime_imfZ _ c hv hy, Option.orElse]
+  | false => simp only [httpDateToDt, Bool.not_false, if_true, strptime_imf _ c hv]
+  | true => simp only [httpDateToDt, Bool.not_true, Bool.false_eq_true, if_false, strptime_imfZ tzn htz _ c hv, Option.orElse]
 
-example : validCivil ⟨2024, 2, 29, 23, 59, 59⟩ = true ∧ dtToHttp ⟨2024, 2, 29, 23, 59, 59⟩ = "Thu, 29 Feb 2024 23:59:59 GMT".toList := by
-  refine ⟨by decide, ?_⟩
-  unfold dtToHttp Cw.imfDate; rw [Cw.natDec_4 _ (by decide) (by decide)]; decide
+example : validCivil ⟨2024, 2, 29, 23, 59, 59⟩ = true ∧ dtToHttp ⟨2024, 2, 29, 23, 59, 59⟩ = "Thu, 29 Feb 2024 23:59:59 GMT".toList := by decide
+example : validCivil ⟨999, 3, 1, 1, 2, 3⟩ = true ∧ dtToHttp ⟨999, 3, 1, 1, 2, 3⟩ = "Fri, 01 Mar 0999 01:02:03 GMT".toList := by decide
 
-
-/-- **below the year 1000 the response side's text does not read back**: glibc's `%Y` writes `999` as `999`, and `%Y` of
-    `strptime` demands exactly four digits — a `Last-Modified` / `Expires` written for such a date is a 400 when echoed -/
-theorem date_below_1000_not_read_back (c : Civil) (hv : validCivil c = true) (hy : c.year < 1000) : httpDateToDt false (dtToHttp c) = none := by
+/-- **regression witness for F37 (fixed by 8cb1d9b)**: the rendering `dt_to_http` used before the fix — the C library's `%Y`,
+    which glibc does not pad — could not be read back below the year 1000, because `%Y` of `strptime` demands exactly four digits -/
+theorem date_below_1000_unpadded_not_read_back (tzn : List Str) (c : Civil) (hv : validCivil c = true) (hy : c.year < 1000) :
+    httpDateToDt tzn false (dtToHttpUnpadded c) = none := by
   obtain ⟨y1, y2, m1, m2, d1, d2, t1, t2, t3⟩ := (validCivil_iff c).mp hv
   have d3 : c.day ≤ 31 := Nat.le_trans d2 (daysInMonth_le _ _)
   have hsp : isDig ' ' = false := by decide
-  rw [dtToHttp_shape]
-  simp only [httpDateToDt, Bool.not_false, if_true, strptime, fmtImf, imfBody, List.cons_append, List.nil_append]
+  rw [dtToHttpUnpadded_shape]
+  simp only [httpDateToDt, Bool.not_false, if_true, strptime, fmtImf, imfBodyY, List.cons_append, List.nil_append]
   rw [scan_wdAbbr, scan_lit, scan_ws_pad2, scan_day _ _ d1 d3 _ _ (headDig_cons _ _ hsp), scan_ws_mon _ _ m1 m2, scan_ws_natDec,
     scan_year4_short _ _ hy _ _ (headDig_cons _ _ hsp)]
   rfl
-
-example : validCivil ⟨999, 3, 1, 1, 2, 3⟩ = true := by decide
-
 /-! ### the day name is not compared with the date -/
 /-- `strptime` with a format that starts with `%a` does not look at which day name it read -/
 theorem strptime_wdAbbr_any (is : List Item) (w w' : Nat) (r : Str) :
@@ -335,37 +417,46 @@ theorem firstName_full_none (w : Nat) (x : Char) (r : Str) (hx : Cw.isAlnum x = 
 
 /-- **`date_weekday_not_checked`**: the day name must be one of the seven, but it is not compared with the date — every
     name gives the same result (any text after it, `obs_date` or not) -/
-theorem date_weekday_not_checked (obs : Bool) (w w' : Nat) (x : Char) (r : Str) (hx : Cw.isAlnum x = false) :
-    httpDateToDt obs (wdName w ++ x :: r) = httpDateToDt obs (wdName w' ++ x :: r) := by
+theorem date_weekday_not_checked (tzn : List Str) (obs : Bool) (w w' : Nat) (x : Char) (r : Str) (hx : Cw.isAlnum x = false) :
+    httpDateToDt tzn obs (wdName w ++ x :: r) = httpDateToDt tzn obs (wdName w' ++ x :: r) := by
   unfold httpDateToDt
-  have h3 : ∀ v, strptime fmtRfc850 (wdName v ++ x :: r) = none := by
+  have h3 : ∀ v, strptime (fmtRfc850 (zoneAlts tzn)) (wdName v ++ x :: r) = none := by
     intro v; simp only [strptime, fmtRfc850, List.cons_append, scan, firstName_full_none v x r hx]; rfl
-  rw [show fmtImf = .wdAbbr :: fmtImf.tail from rfl, show fmtImfZ = .wdAbbr :: fmtImfZ.tail from rfl,
-    show fmtDash4 = .wdAbbr :: fmtDash4.tail from rfl, show fmtAsctime = .wdAbbr :: fmtAsctime.tail from rfl,
-    strptime_wdAbbr_any _ w w', strptime_wdAbbr_any fmtImfZ.tail w w', strptime_wdAbbr_any fmtDash4.tail w w', strptime_wdAbbr_any fmtAsctime.tail w w',
-    h3 w, h3 w']
+  rw [show fmtImf = .wdAbbr :: fmtImf.tail from rfl, show fmtImfZ (zoneAlts tzn) = .wdAbbr :: (fmtImfZ (zoneAlts tzn)).tail from rfl,
+    show fmtDash4 (zoneAlts tzn) = .wdAbbr :: (fmtDash4 (zoneAlts tzn)).tail from rfl, show fmtAsctime = .wdAbbr :: fmtAsctime.tail from rfl,
+    strptime_wdAbbr_any _ w w', strptime_wdAbbr_any (fmtImfZ (zoneAlts tzn)).tail w w', strptime_wdAbbr_any (fmtDash4 (zoneAlts tzn)).tail w w',
+    strptime_wdAbbr_any fmtAsctime.tail w w', h3 w, h3 w']
 
 /-- without `obs_date` (what the request properties use) this holds for every continuation -/
-theorem date_weekday_not_checked_imf (w w' : Nat) (r : Str) : httpDateToDt false (wdName w ++ r) = httpDateToDt false (wdName w' ++ r) := by
+theorem date_weekday_not_checked_imf (tzn : List Str) (w w' : Nat) (r : Str) :
+    httpDateToDt tzn false (wdName w ++ r) = httpDateToDt tzn false (wdName w' ++ r) := by
   simp only [httpDateToDt, Bool.not_false, if_true]
   exact strptime_wdAbbr_any _ w w' r
 
 /-- in particular a rendered date keeps its reading under every day name -/
-theorem date_any_weekday (obs : Bool) (w : Nat) (c : Civil) (hv : validCivil c = true) (hy : 1000 ≤ c.year) :
-    httpDateToDt obs (wdName w ++ imfBody c) = some c := by
-  have := date_format_parse obs c hv hy
+theorem date_any_weekday (tzn : List Str) (htz : TzNamesOk tzn) (obs : Bool) (w : Nat) (c : Civil) (hv : validCivil c = true) :
+    httpDateToDt tzn obs (wdName w ++ imfBody c) = some c := by
+  have := date_format_parse tzn htz obs c hv
   rw [dtToHttp_shape] at this
   rw [← this]
-  exact date_weekday_not_checked obs w _ ',' _ (by decide)
+  exact date_weekday_not_checked tzn obs w _ ',' _ (by decide)
+
+/-- **the process time zone does not matter** without `obs_date`, i.e. for `req.date`, `req.if_modified_since`,
+    `req.if_unmodified_since` and `get_header_as_datetime(…)`: the fields are taken as read and labelled UTC -/
+theorem date_tz_independent (tzn : List Str) (s : Str) : httpDateToDt tzn false s = httpDateToDt [] false s := by
+  simp only [httpDateToDt, Bool.not_false, if_true]
 
 /-- 1994-11-06 was a Sunday; `Mon, 06 Nov 1994 …` is read all the same -/
-example : httpDateToDt false "Mon, 06 Nov 1994 08:49:37 GMT".toList = some ⟨1994, 11, 6, 8, 49, 37⟩ := by decide
+example : httpDateToDt [] false "Mon, 06 Nov 1994 08:49:37 GMT".toList = some ⟨1994, 11, 6, 8, 49, 37⟩ := by decide
 /-- what else `strptime` lets through: any letter case, one-digit fields, any run of `str.isspace` characters -/
-example : httpDateToDt false "sUN,\t 6 nOV 1994 8:9:7 gmt".toList = some ⟨1994, 11, 6, 8, 9, 7⟩ := by decide
-example : httpDateToDt false "Sun, 06 Nov 1994 08:49:37 UTC".toList = none ∧ httpDateToDt true "Sun, 06 Nov 1994 08:49:37 UTC".toList = some ⟨1994, 11, 6, 8, 49, 37⟩ := by decide
-example : httpDateToDt false "Sun, 31 Nov 1994 08:49:37 GMT".toList = none ∧ httpDateToDt false "Sun, 06 Nov 1994 08:49:60 GMT".toList = none ∧
-    httpDateToDt false "Sun, 06 Nov 0000 08:49:37 GMT".toList = none ∧ httpDateToDt false "Sun, 06 Nov 1994 08:49:37 GMT ".toList = none ∧
-    httpDateToDt false "Thu, 29 Feb 1900 00:00:00 GMT".toList = none := by decide
+example : httpDateToDt [] false "sUN,\t 6 nOV 1994 8:9:7 gmt".toList = some ⟨1994, 11, 6, 8, 9, 7⟩ := by decide
+example : httpDateToDt [] false "Sun, 06 Nov 1994 08:49:37 UTC".toList = none ∧ httpDateToDt [] true "Sun, 06 Nov 1994 08:49:37 UTC".toList = some ⟨1994, 11, 6, 8, 49, 37⟩ := by decide
+/-- with `obs_date=True` the process's own zone name is accepted as well (and the time is still labelled UTC) -/
+example : httpDateToDt [] true "Sun, 06 Nov 1994 08:49:37 CET".toList = none ∧
+    httpDateToDt ["cet".toList] true "Sun, 06 Nov 1994 08:49:37 CET".toList = some ⟨1994, 11, 6, 8, 49, 37⟩ := by decide
+example : httpDateToDt [] false "Sun, 31 Nov 1994 08:49:37 GMT".toList = none ∧ httpDateToDt [] false "Sun, 06 Nov 1994 08:49:60 GMT".toList = none ∧
+    httpDateToDt [] false "Sun, 06 Nov 0000 08:49:37 GMT".toList = none ∧ httpDateToDt [] false "Sun, 06 Nov 1994 08:49:37 GMT ".toList = none ∧
+    httpDateToDt [] false "Thu, 29 Feb 1900 00:00:00 GMT".toList = none := by decide
 
 theorem orElse_eq_some {α : Type} (a : Option α) (f : Unit → Option α) (c : α) (h : a.orElse f = some c) : a = some c ∨ f () = some c := by
   cases a with
@@ -373,7 +464,7 @@ theorem orElse_eq_some {α : Type} (a : Option α) (f : Unit → Option α) (c :
   | none => exact Or.inr h
 
 /-- whatever is returned is a real date and time of day (`datetime` checked it) -/
-theorem httpDateToDt_valid (obs : Bool) (s : Str) (c : Civil) (h : httpDateToDt obs s = some c) : validCivil c = true := by
+theorem httpDateToDt_valid (tzn : List Str) (obs : Bool) (s : Str) (c : Civil) (h : httpDateToDt tzn obs s = some c) : validCivil c = true := by
   have key : ∀ fmt, strptime fmt s = some c → validCivil c = true := by
     intro fmt hf
     unfold strptime at hf
@@ -390,7 +481,6 @@ theorem httpDateToDt_valid (obs : Bool) (s : Str) (c : Civil) (h : httpDateToDt 
       · rcases orElse_eq_some _ _ _ h with h | h
         · exact key _ h
         · exact key _ h
-
 /-! ### the obsolete forms: read with `obs_date=True`, rejected without (known finding F30) -/
 theorem firstName_wdFull (w : Nat) (r : Str) : ∃ i, firstName wdFulls 0 (wdFullName w ++ r) = some (i, r) := by
   unfold wdFullName; split <;> exact ⟨_, rfl⟩
@@ -410,8 +500,8 @@ def rfc850Body (c : Civil) : Str :=
 theorem rfc850_shape (c : Civil) : rfc850Date c = wdFullName (civilWeekday c) ++ rfc850Body c := by
   simp [rfc850Date, rfc850Body, timeOfDay, List.append_assoc]
 
-theorem strptime_rfc850 (w : Nat) (c : Civil) (hv : validCivil c = true) (h1 : 1969 ≤ c.year) (h2 : c.year ≤ 2068) :
-    strptime fmtRfc850 (wdFullName w ++ rfc850Body c) = some c := by
+theorem strptime_rfc850 (tzn : List Str) (htz : TzNamesOk tzn) (w : Nat) (c : Civil) (hv : validCivil c = true) (h1 : 1969 ≤ c.year) (h2 : c.year ≤ 2068) :
+    strptime (fmtRfc850 (zoneAlts tzn)) (wdFullName w ++ rfc850Body c) = some c := by
   obtain ⟨y1, y2, m1, m2, d1, d2, t1, t2, t3⟩ := (validCivil_iff c).mp hv
   have d3 : c.day ≤ 31 := Nat.le_trans d2 (daysInMonth_le _ _)
   have hsp : isDig ' ' = false := by decide
@@ -420,32 +510,32 @@ theorem strptime_rfc850 (w : Nat) (c : Civil) (hv : validCivil c = true) (h1 : 1
   simp only [List.cons_append, List.nil_append]
   rw [scan_wdFull, scan_lit, scan_ws_pad2, scan_day _ _ d1 d3 _ _ (headDig_cons _ _ hda), scan_lit, scan_mon _ _ m1 m2, scan_lit,
     scan_year2 _ _ h1 h2 _ _ (headDig_cons _ _ hsp), scan_ws_pad2]
-  have := scan_hms [.ws, .zone] c ⟨t1, t2, t3⟩ [' ', 'G', 'M', 'T'] { ({} : Fields) with day := c.day, month := c.month, year := c.year } (headDig_cons _ _ hsp)
+  have := scan_hms [.ws, .zone (zoneAlts tzn)] c ⟨t1, t2, t3⟩ [' ', 'G', 'M', 'T'] { ({} : Fields) with day := c.day, month := c.month, year := c.year } (headDig_cons _ _ hsp)
   simp only [List.cons_append, List.nil_append, hms] at this
   simp only [hms, List.cons_append, List.nil_append]
-  rw [this]
+  rw [this, scan_ws _ 'G' _ _ (by decide), scan_zone_gmt tzn htz]
   exact mkDatetime_of_valid c hv
 
 /-- **rfc850-date**: with `obs_date=True` the two-digit-year form reads back for the years 1969..2068 (POSIX pivot) -/
-theorem rfc850_parse (c : Civil) (hv : validCivil c = true) (h1 : 1969 ≤ c.year) (h2 : c.year ≤ 2068) : httpDateToDt true (rfc850Date c) = some c := by
+theorem rfc850_parse (tzn : List Str) (htz : TzNamesOk tzn) (c : Civil) (hv : validCivil c = true) (h1 : 1969 ≤ c.year) (h2 : c.year ≤ 2068) :
+    httpDateToDt tzn true (rfc850Date c) = some c := by
   rw [rfc850_shape]
-  have e1 : strptime fmtImfZ (wdFullName (civilWeekday c) ++ rfc850Body c) = none := by
+  have e1 : strptime (fmtImfZ (zoneAlts tzn)) (wdFullName (civilWeekday c) ++ rfc850Body c) = none := by
     simp only [strptime, fmtImfZ, List.cons_append, scan_wdAbbr_comma_full]; rfl
-  have e2 : strptime fmtDash4 (wdFullName (civilWeekday c) ++ rfc850Body c) = none := by
+  have e2 : strptime (fmtDash4 (zoneAlts tzn)) (wdFullName (civilWeekday c) ++ rfc850Body c) = none := by
     simp only [strptime, fmtDash4, List.cons_append, scan_wdAbbr_comma_full]; rfl
-  simp only [httpDateToDt, Bool.not_true, Bool.false_eq_true, if_false, e1, e2, Option.orElse, strptime_rfc850 _ c hv h1 h2]
+  simp only [httpDateToDt, Bool.not_true, Bool.false_eq_true, if_false, e1, e2, Option.orElse, strptime_rfc850 tzn htz _ c hv h1 h2]
 
 /-- … and the request properties (no `obs_date`) answer 400 for it, whatever the date -/
-theorem rfc850_rejected_without_obs (c : Civil) : httpDateToDt false (rfc850Date c) = none := by
+theorem rfc850_rejected_without_obs (tzn : List Str) (c : Civil) : httpDateToDt tzn false (rfc850Date c) = none := by
   rw [rfc850_shape]
   simp only [httpDateToDt, Bool.not_false, if_true, strptime, fmtImf, List.cons_append, scan_wdAbbr_comma_full]; rfl
 
 def asctimeBody (c : Civil) : Str :=
-  ' ' :: (monName c.month ++ ' ' :: (day2sp c.day ++ ' ' :: (pad2 c.hour ++ ':' :: (pad2 c.minute ++ ':' :: (pad2 c.second ++ ' ' :: natDec c.year)))))
+  ' ' :: (monName c.month ++ ' ' :: (day2sp c.day ++ ' ' :: (pad2 c.hour ++ ':' :: (pad2 c.minute ++ ':' :: (pad2 c.second ++ ' ' :: pad4z c.year)))))
 
 theorem asctime_shape (c : Civil) : asctimeDate c = wdName (civilWeekday c) ++ asctimeBody c := by
   simp [asctimeDate, asctimeBody, timeOfDay, List.append_assoc]
-
 /-- `\s+%d` on `SP 1DIGIT` / `2DIGIT` -/
 theorem scan_ws_day2sp (is : List Item) (d : Nat) (h1 : 1 ≤ d) (h2 : d ≤ 31) (rest : Str) (f : Fields) (hr : ∀ y ∈ rest.head?, isDig y = false) :
     scan (.ws :: .day :: is) (' ' :: (day2sp d ++ rest)) f = scan is rest { f with day := d } := by
@@ -463,63 +553,63 @@ theorem scan_ws_day2sp (is : List Item) (d : Nat) (h1 : 1 ≤ d) (h2 : d ≤ 31)
     simp only [scan, spanDig_append _ _ hall hr, hn]
   · rw [scan_ws_pad2, scan_day _ _ h1 h2 _ _ hr]
 
-theorem strptime_asctime (w : Nat) (c : Civil) (hv : validCivil c = true) (hy : 1000 ≤ c.year) :
-    strptime fmtAsctime (wdName w ++ asctimeBody c) = some c := by
+theorem strptime_asctime (w : Nat) (c : Civil) (hv : validCivil c = true) : strptime fmtAsctime (wdName w ++ asctimeBody c) = some c := by
   obtain ⟨y1, y2, m1, m2, d1, d2, t1, t2, t3⟩ := (validCivil_iff c).mp hv
   have d3 : c.day ≤ 31 := Nat.le_trans d2 (daysInMonth_le _ _)
   have hsp : isDig ' ' = false := by decide
   unfold strptime fmtAsctime asctimeBody
   simp only [List.cons_append, List.nil_append]
   rw [scan_wdAbbr, scan_ws_mon _ _ m1 m2, scan_ws_day2sp _ _ d1 d3 _ _ (headDig_cons _ _ hsp), scan_ws_pad2]
-  have := scan_hms [.ws, .year4] c ⟨t1, t2, t3⟩ (' ' :: natDec c.year) { ({} : Fields) with month := c.month, day := c.day } (headDig_cons _ _ hsp)
+  have := scan_hms [.ws, .year4] c ⟨t1, t2, t3⟩ (' ' :: pad4z c.year) { ({} : Fields) with month := c.month, day := c.day } (headDig_cons _ _ hsp)
   simp only [List.cons_append, List.nil_append, hms] at this
   simp only [hms, List.cons_append, List.nil_append]
   rw [this]
-  have e := scan_ws_natDec [.year4] c.year [] { ({} : Fields) with month := c.month, day := c.day, hour := c.hour, minute := c.minute, second := c.second }
-  have e2 := scan_year4 [] c.year hy y2 [] { ({} : Fields) with month := c.month, day := c.day, hour := c.hour, minute := c.minute, second := c.second } headDig_nil
+  have e := scan_ws_pad4z [.year4] c.year [] { ({} : Fields) with month := c.month, day := c.day, hour := c.hour, minute := c.minute, second := c.second }
+  have e2 := scan_year4_pad [] c.year y2 [] { ({} : Fields) with month := c.month, day := c.day, hour := c.hour, minute := c.minute, second := c.second } headDig_nil
   simp only [List.append_nil] at e e2
   rw [e, e2]
   exact mkDatetime_of_valid c hv
 
-/-- **asctime-date**: with `obs_date=True` the ANSI C form reads back (four-digit years) -/
-theorem asctime_parse (c : Civil) (hv : validCivil c = true) (hy : 1000 ≤ c.year) : httpDateToDt true (asctimeDate c) = some c := by
+/-- **asctime-date**: with `obs_date=True` the ANSI C form (four-digit year) reads back, for every valid date-time -/
+theorem asctime_parse (tzn : List Str) (c : Civil) (hv : validCivil c = true) : httpDateToDt tzn true (asctimeDate c) = some c := by
   rw [asctime_shape]
   have hsp : (' ' : Char) ≠ ',' := by decide
-  have e1 : strptime fmtImfZ (wdName (civilWeekday c) ++ asctimeBody c) = none := by
+  have e1 : strptime (fmtImfZ (zoneAlts tzn)) (wdName (civilWeekday c) ++ asctimeBody c) = none := by
     simp only [strptime, fmtImfZ, asctimeBody, List.cons_append, scan_wdAbbr, scan_lit_ne _ _ _ _ _ hsp]; rfl
-  have e2 : strptime fmtDash4 (wdName (civilWeekday c) ++ asctimeBody c) = none := by
+  have e2 : strptime (fmtDash4 (zoneAlts tzn)) (wdName (civilWeekday c) ++ asctimeBody c) = none := by
     simp only [strptime, fmtDash4, asctimeBody, List.cons_append, scan_wdAbbr, scan_lit_ne _ _ _ _ _ hsp]; rfl
-  have e3 : strptime fmtRfc850 (wdName (civilWeekday c) ++ asctimeBody c) = none := by
+  have e3 : strptime (fmtRfc850 (zoneAlts tzn)) (wdName (civilWeekday c) ++ asctimeBody c) = none := by
     simp only [strptime, fmtRfc850, asctimeBody, List.cons_append, scan, firstName_full_none _ ' ' _ (by decide)]; rfl
-  simp only [httpDateToDt, Bool.not_true, Bool.false_eq_true, if_false, e1, e2, e3, Option.orElse, strptime_asctime _ c hv hy]
+  simp only [httpDateToDt, Bool.not_true, Bool.false_eq_true, if_false, e1, e2, e3, Option.orElse, strptime_asctime _ c hv]
 
-theorem asctime_rejected_without_obs (c : Civil) : httpDateToDt false (asctimeDate c) = none := by
+theorem asctime_rejected_without_obs (tzn : List Str) (c : Civil) : httpDateToDt tzn false (asctimeDate c) = none := by
   rw [asctime_shape]
   have hsp : (' ' : Char) ≠ ',' := by decide
   simp only [httpDateToDt, Bool.not_false, if_true, strptime, fmtImf, asctimeBody, List.cons_append, scan_wdAbbr, scan_lit_ne _ _ _ _ _ hsp]; rfl
 
 /-! ### the request accessors -/
 /-- **`req_date_accessors`**: `req.date`, `req.if_modified_since`, `req.if_unmodified_since` are
-    `get_header_as_datetime(<their header>)`: header absent → `None`; `http_date_to_dt` (IMF-fixdate only) succeeds → that
-    date-time; anything else → `HTTPInvalidHeader` (400) -/
-theorem req_date_accessors (value : Option Str) :
-    reqDate value = getHeaderAsDatetime value false false ∧
+    `get_header_as_datetime(<their header>)` in a process with any time zone: header absent → `None`; `http_date_to_dt`
+    (IMF-fixdate only) succeeds → that date-time; anything else → `HTTPInvalidHeader` (400) -/
+theorem req_date_accessors (tzn : List Str) (value : Option Str) :
+    reqDate value = getHeaderAsDatetime tzn value false false ∧
     reqDate value = (match value with
       | none => .absent
-      | some v => match httpDateToDt false v with
+      | some v => match httpDateToDt tzn false v with
         | some c => .ok c
         | none => .invalid400) := by
-  refine ⟨rfl, ?_⟩
-  cases value <;> rfl
+  cases value with
+  | none => exact ⟨rfl, rfl⟩
+  | some v => simp only [reqDate, getHeaderAsDatetime, date_tz_independent tzn v]; exact ⟨trivial, rfl⟩
 
 /-- `required=True` turns only the absent header into an error (`HTTPMissingHeader`, also a 400) -/
-theorem getHeaderAsDatetime_required (value : Option Str) (obs : Bool) :
-    getHeaderAsDatetime value true obs = (match value with | none => .missing400 | some _ => getHeaderAsDatetime value false obs) := by
+theorem getHeaderAsDatetime_required (tzn : List Str) (value : Option Str) (obs : Bool) :
+    getHeaderAsDatetime tzn value true obs = (match value with | none => .missing400 | some _ => getHeaderAsDatetime tzn value false obs) := by
   cases value <;> rfl
 
-/-- a date header written by the response API (`dt_to_http`) is read by the three properties as the same date-time -/
-theorem req_date_reads_response_date (c : Civil) (hv : validCivil c = true) (hy : 1000 ≤ c.year) : reqDate (some (dtToHttp c)) = .ok c := by
-  simp only [reqDate, getHeaderAsDatetime, date_format_parse false c hv hy]
+/-- a date header written by the response API (`dt_to_http`) is read by the three properties as the same date-time — every year 1..9999 -/
+theorem req_date_reads_response_date (c : Civil) (hv : validCivil c = true) : reqDate (some (dtToHttp c)) = .ok c := by
+  simp only [reqDate, getHeaderAsDatetime, date_format_parse [] tzNamesOk_nil false c hv]
 
 /-- a returned date-time is always a real one -/
 theorem reqDate_ok_valid (value : Option Str) (c : Civil) (h : reqDate value = .ok c) : validCivil c = true := by
@@ -527,26 +617,25 @@ theorem reqDate_ok_valid (value : Option Str) (c : Civil) (h : reqDate value = .
   | none => simp [reqDate, getHeaderAsDatetime] at h
   | some v =>
     simp only [reqDate, getHeaderAsDatetime] at h
-    cases hp : httpDateToDt false v with
+    cases hp : httpDateToDt [] false v with
     | none => rw [hp] at h; simp at h
     | some d =>
       rw [hp] at h; simp only [DateRes.ok.injEq] at h
-      rw [← h]; exact httpDateToDt_valid false v d hp
+      rw [← h]; exact httpDateToDt_valid [] false v d hp
 
 /-- **known finding F30, as a theorem**: the two obsolete forms that RFC 9110 5.6.7 obliges a recipient to accept are answered
     with 400 by the properties, although `get_header_as_datetime(…, obs_date=True)` reads them -/
-theorem obs_forms_rejected_by_properties (c : Civil) (hv : validCivil c = true) :
+theorem obs_forms_rejected_by_properties (tzn : List Str) (htz : TzNamesOk tzn) (c : Civil) (hv : validCivil c = true) :
     reqDate (some (rfc850Date c)) = .invalid400 ∧ reqDate (some (asctimeDate c)) = .invalid400 ∧
-    (1969 ≤ c.year → c.year ≤ 2068 → getHeaderAsDatetime (some (rfc850Date c)) false true = .ok c) ∧
-    (1000 ≤ c.year → getHeaderAsDatetime (some (asctimeDate c)) false true = .ok c) := by
+    (1969 ≤ c.year → c.year ≤ 2068 → getHeaderAsDatetime tzn (some (rfc850Date c)) false true = .ok c) ∧
+    getHeaderAsDatetime tzn (some (asctimeDate c)) false true = .ok c := by
   refine ⟨?_, ?_, ?_, ?_⟩
   · simp only [reqDate, getHeaderAsDatetime, rfc850_rejected_without_obs]
   · simp only [reqDate, getHeaderAsDatetime, asctime_rejected_without_obs]
-  · intro h1 h2; simp only [getHeaderAsDatetime, rfc850_parse c hv h1 h2]
-  · intro h1; simp only [getHeaderAsDatetime, asctime_parse c hv h1]
+  · intro h1 h2; simp only [getHeaderAsDatetime, rfc850_parse tzn htz c hv h1 h2]
+  · simp only [getHeaderAsDatetime, asctime_parse tzn c hv]
 
 example : rfc850Date ⟨1994, 11, 6, 8, 49, 37⟩ = "Sunday, 06-Nov-94 08:49:37 GMT".toList := by decide
-example : asctimeDate ⟨1994, 11, 6, 8, 49, 37⟩ = "Sun Nov  6 08:49:37 1994".toList := by
-  unfold asctimeDate; rw [Cw.natDec_4 _ (by decide) (by decide)]; decide
+example : asctimeDate ⟨1994, 11, 6, 8, 49, 37⟩ = "Sun Nov  6 08:49:37 1994".toList := by decide
 
 end Dt
